@@ -85,6 +85,9 @@ type Config struct {
 	// Pseudo-locks: calling these functions acquires / releases a named token.
 	Acquire map[*ssa.Function]string
 	Release map[*ssa.Function]string
+	// AcquireAt / ReleaseAt: executing this instruction acquires / releases a named token ("" = none).
+	AcquireAt func(ssa.Instruction) string
+	ReleaseAt func(ssa.Instruction) string
 	// RootHeld: tokens held on entry of a root.
 	RootHeld map[*ssa.Function][]string
 	// Shared: struct types whose fields are shared locations (by type object).
@@ -256,6 +259,18 @@ func (a *analyzer) applyDeferred(f *ssa.Function, d ssa.Instruction, st Set, bin
 }
 
 func (a *analyzer) step(f *ssa.Function, ins ssa.Instruction, st Set, bind map[int]*ssa.Function, deferred *[]ssa.Instruction) Set {
+	if a.cfg.AcquireAt != nil {
+		if tok := a.cfg.AcquireAt(ins); tok != "" {
+			st = st.clone()
+			st[tok] = 'W'
+		}
+	}
+	if a.cfg.ReleaseAt != nil {
+		if tok := a.cfg.ReleaseAt(ins); tok != "" {
+			st = st.clone()
+			delete(st, tok)
+		}
+	}
 	switch x := ins.(type) {
 	case *ssa.Defer:
 		*deferred = append(*deferred, ins)
